@@ -21,6 +21,7 @@ class Scope:
         self.path = path
         self.module = module
         self.wid = {}        # wire name -> global id
+        self.bitmap = {}     # (wire name, bit) -> (global id, bit) for inout ports aliased to the parent's net
         self.mems = {}       # memory name -> Mem
 
 
@@ -86,6 +87,8 @@ class Evaluator:
                 wid = scope.wid[name]
                 if idx >= self.w_width[wid]:
                     raise EvalError(f"bit {idx} out of range for {name}")
+                if (name, idx) in scope.bitmap:
+                    wid, idx = scope.bitmap[(name, idx)]
                 if out and out[-1][0] == "w" and out[-1][1] == wid and out[-1][2] + out[-1][3] == idx:
                     out[-1] = ("w", wid, out[-1][2], out[-1][3] + 1)
                 else:
@@ -131,8 +134,9 @@ class Evaluator:
             pos += w
         return changed
 
-    def instantiate(self, module, path):
+    def instantiate(self, module, path, bitmap=None):
         scope = Scope(path, module)
+        scope.bitmap = bitmap or {}
         self.scopes[path] = scope
         for name, w in module.wires.items():
             scope.wid[name] = self.new_wire("/".join(path) + ":" + name, w.width)
@@ -262,7 +266,19 @@ class Evaluator:
                     pass
         elif t in self.doc.modules:
             sub = self.doc.modules[t]
-            sscope = self.instantiate(sub, scope.path + (cell.name[1:],))
+            # inout ports share the parent's net bit by bit
+            bitmap = {}
+            for pname, ch in conn.items():
+                w = sub.wires.get("\\" + pname)
+                if w is not None and w.port_kind == "inout":
+                    k = 0
+                    for c in ch:
+                        if c[0] != "w":
+                            raise EvalError(f"inout port {pname} of {t} connected to a constant")
+                        for j in range(c[3]):
+                            bitmap[("\\" + pname, k)] = (c[1], c[2] + j)
+                            k += 1
+            sscope = self.instantiate(sub, scope.path + (cell.name[1:],), bitmap)
             for pname, ch in conn.items():
                 w = sub.wires.get("\\" + pname)
                 if w is None:
@@ -273,8 +289,7 @@ class Evaluator:
                 elif w.port_kind == "output":
                     self.comb.append(lambda inner=inner, ch=ch: self.write(ch, self.read(inner)))
                 elif w.port_kind == "inout":
-                    # pads: value resolved at the outermost level; alias by copying both ways lazily
-                    self.comb.append(lambda inner=inner, ch=ch: self.alias(inner, ch))
+                    pass      # aliased through the bitmap
                 else:
                     raise EvalError(f"port {pname} of {t} is not declared as a port")
         else:
